@@ -404,4 +404,40 @@ theorem stableSort_key_perm_invariant {α κ} {le : α → α → Bool} (h : Tot
     ((stableSort_perm le l₁).trans (hp.trans (stableSort_perm le l₂).symm))
     (stableSort_sorted h l₁) (stableSort_sorted h l₂)
 
+
+/-! ### stability: elements that compare equal keep their input order -/
+
+theorem insertBy_filter_equiv {α} {le : α → α → Bool} (h : TotalPreorder le) (a x : α) (l : List α) :
+    (insertBy le x l).filter (fun y => le a y && le y a)
+      = if (le a x && le x a) = true then x :: l.filter (fun y => le a y && le y a)
+        else l.filter (fun y => le a y && le y a) := by
+  induction l with
+  | nil => by_cases ex : (le a x && le x a) = true <;> simp [insertBy, List.filter, ex]
+  | cons y ys ih =>
+    by_cases hxy : le x y = true
+    · have e : insertBy le x (y :: ys) = x :: y :: ys := by simp [insertBy, hxy]
+      rw [e]
+      simp only [List.filter_cons]
+    · have e : insertBy le x (y :: ys) = y :: insertBy le x ys := by simp [insertBy, hxy]
+      rw [e]
+      simp only [List.filter_cons]
+      rw [ih]
+      by_cases ex : (le a x && le x a) = true
+      · have ey : (le a y && le y a) = false := by
+          rw [Bool.and_eq_true] at ex
+          cases hay : le a y
+          · simp
+          · exact absurd (h.trans _ _ _ ex.2 hay) hxy
+        simp [ex, ey]
+      · simp [ex]
+
+/-- the sort is stable: the elements equivalent to any given `a` come out in the order they went in -/
+theorem stableSort_stable {α} {le : α → α → Bool} (h : TotalPreorder le) (a : α) (l : List α) :
+    (stableSort le l).filter (fun y => le a y && le y a) = l.filter (fun y => le a y && le y a) := by
+  induction l with
+  | nil => rfl
+  | cons x xs ih =>
+    show (insertBy le x (stableSort le xs)).filter _ = _
+    rw [insertBy_filter_equiv h, ih, List.filter_cons]
+
 end AgpTpf.C20
